@@ -1,3 +1,5 @@
 //! Deterministic environments: task driver, scripted byte carriers.
 pub mod driver;
 pub mod pipe;
+pub mod node;
+pub mod transport;
